@@ -27,7 +27,7 @@
 #[verifier::external_type_specification] pub struct ExTokenType(TokenType);
 #[verifier::external_type_specification] pub struct ExStringLiteralQuoteType(StringLiteralQuoteType);
 #[cfg(feature = "luau")] #[verifier::external_type_specification] pub struct ExInterpolatedStringKind(full_moon::tokenizer::InterpolatedStringKind);
-#[verifier::reject_recursive_types(T)]
+#[verifier::accept_recursive_types(T)]   // a sequence of (T, Option<TokenReference>) pairs: T occurs positively only
 #[verifier::external_type_specification] #[verifier::external_body] pub struct ExPunctuated<T>(Punctuated<T>);
 
 pub assume_specification<T> [<T as std::borrow::ToOwned>::to_owned] (x: &T) -> (r: T) where T: std::clone::Clone, ensures r == *x;
